@@ -769,6 +769,31 @@ int main(int argc, char** argv) {
             if (!good) log.fail(std::string("mixed-ne-lifted.") + opName[op], describe(sz.v, m) + " mixed=" + hexVec(rm) + " lifted=" + hexVec(rf));
             else log.ok();
         }
+        // (2b) the scalar operand is the object's own value(): `x op= x.value()` must equal `x op= c` for a copy c of it
+        for (long it = 0; it < mixes / 4; ++it) {
+            Sizes sz = pickVariant(rng);
+            std::vector<double> x(sz.n + 1); x[0] = randVal(rng);
+            if (std::fabs(x[0]) < 0.05) continue;
+            for (int j = 1; j <= sz.n; ++j) x[j] = -2.0 + 4.0 * rng.unit();
+            const int which = rng.range(0, 3);
+            static const char* nm[] = { "adds", "subs", "muls", "divs" };
+            std::vector<double> ra, rc;
+            withVariant(sz.v, sz.n, [&](auto tag) {
+                using E = typename decltype(tag)::type;
+                E a = fromVec<E>(sz.n, x), c = fromVec<E>(sz.n, x);
+                const double copy = x[0];
+                switch (which) {
+                case 0: a += a.value(); c += copy; break;
+                case 1: a -= a.value(); c -= copy; break;
+                case 2: a *= a.value(); c *= copy; break;
+                default: a /= a.value(); c /= copy; break;
+                }
+                ra = toVec(a); rc = toVec(c);
+            });
+            ++st[std::string("self-valued.") + nm[which]];
+            if (hexVec(ra) != hexVec(rc)) log.fail(std::string("self-valued-scalar.") + nm[which], std::string(1, sz.v) + " n=" + std::to_string(sz.n) + " x=" + hexVec(x) + " x op= x.value(): " + hexVec(ra) + " x op= copy: " + hexVec(rc));
+            else log.ok();
+        }
         // (3) derivatives == central finite differences of value() (real code on both sides)
         const long fds = thorough ? 40000 : 3000;
         for (long it = 0; it < fds; ++it) {
